@@ -181,6 +181,14 @@ func runC04(w *World, tier string) (bool, interface{}) {
 	if t > n {
 		t = n
 	}
+	// participants choose their own names: names that differ in letter case or
+	// white space only must still be different participants (whose deal is whose)
+	if w.Tape.Bool(1, 3, "lookAlikeNames") {
+		w.NameOf = func(i int) string {
+			return []string{"alice", "Alice", "ALICE", "alice ", " alice", "aLICE", "alicE"}[i%7]
+		}
+		w.Stats.Fault("look-alike-user-names")
+	}
 	c := NewCluster(w, n)
 	fedOps := map[int][][]byte{} // key-generation operation files each machine was fed
 	for i, op := range c.Ops {
